@@ -18,9 +18,9 @@ PROP = {'streams': [('c17', 1000, 100000)],
               'decision_sliced_partial',
               'typed_false_environment_breaks_slicing'],
  'assumptions': ['manifest_sound_partial / response_sliced_partial are PROVED ONLY FOR THE FRAGMENT `Cedar.Manifest.InFrag` (literals, variables, . and '
-                 'has chains through records and entities, && || !, if (also producing entities/records that are then dereferenced), unary -, == < <= '
-                 '+ - *, like, is) under the side condition SafeOps (operands of binary operators are not records in the full store - implied by '
-                 'non-record operand types + type soundness, C03) and for requests whose context has unique keys (CtxWF); in, contains*, isEmpty, '
+                 'has chains through records and entities, && || !, if (also producing entities/records that are then dereferenced), unary -, isEmpty, '
+                 '== < <= + - *, in (with the ancestors-required tries), contains containsAll containsAny, like, is) under the side condition SafeOps (operands of binary operators are not records in the full store - implied by '
+                 'non-record operand types + type soundness, C03) and for requests whose context has unique keys (CtxWF); == / contains on records, '
                  'record / set literals, extension calls are covered by the differential run and the implementation-level property only',
                  'the theorems assume the slice satisfies SubStore + CoverRoots (the specification of a slice); that the slicer meets it '
                  '(`SlicerMeetsSpec`) is NOT proved: it is checked by sound executable checkers (Lemmas/ManifestCheck.lean) on every sampled slice '
@@ -38,10 +38,11 @@ TEXT = ('Lean model (Cedar/Manifest.lean) mirroring entity_manifest.rs + analysi
  'full_type_required, ancestors tries), type_annotations.rs (to_typed) and loader.rs/slicing.rs (load_entities with EntitySlicer: slice_entity, slice_val, '
  'pruning of entity dereferences, merge of slices, compute_ancestors_request, load_ancestors). PROVED: slicing is monotone in the trie (attributes, '
  'requested ancestors); every listed path survives slice_val; and, FOR THE CORE FRAGMENT ONLY (InFrag: literals, variables, ./has chains through records '
- 'and entities, && || !, if producing entities that are dereferenced, unary -, == < <= + - *, like, is), soundness of the analysis: every store that is a '
+ 'and entities, && || !, if producing entities that are dereferenced, unary -, isEmpty, == < <= + - *, in with ancestors tries, contains*, like, is; '
+ 'binary operands not records), soundness of the analysis: every store that is a '
  'sub-store of the full store and covers the trie computed by manifestOfExpr evaluates the expression as the full store does, lifted to the whole '
  'authorizer response (decision, reasons, erroring policies) and via C01 to the decision characterisation. NOT proved: that the slicer meets the '
- 'sub-store/cover specification (checked on every sampled slice by sound executable checkers), in / contains* / isEmpty / record and set literals / '
+ 'sub-store/cover specification (checked on every sampled slice by sound executable checkers), record and set literals, == on records, '
  'extension calls, to_typed. The statement on the implementation (authorization over slice_entities == over the full store) is searched on generated '
  'schema worlds with manifest-stressing policy families; two classes of genuine failures are recorded as known findings (typed-False environments; '
  'template slots).',
